@@ -18,9 +18,8 @@ CONSTANTS
   MaxHeld = 0
   D = 4
 INIT Init
-NEXT Next
+NEXT NextB
 VIEW viewP
-CONSTRAINT Bound
 INVARIANT TypeOK
 INVARIANT Export
 PROPERTY NoEmitBlocked
